@@ -228,7 +228,9 @@ func c20Mut(env *core.Env, seed uint64) {
 	defer env.In("mut", seed)()
 	env.Case()
 	rng := core.NewRng(seed, "c20-mut")
-	urls := []string{"http://u/a", "http://u/b", "http://u/c"}
+	// three URLs per case; some sets differ only in letter case, a trailing character or a prefix (a URL is an exact string)
+	urls := [][]string{{"http://u/a", "http://u/b", "http://u/c"}, {"http://u/a", "http://u/A", "http://u/b"}, {"http://u/birthPlace", "http://U/birthPlace", "http://u/birthplace"},
+		{"http://u/a", "http://u/ab", "http://u/a/"}, {"http://u/a", "http://u/b", "http://u/c"}, {"urn:x:Y", "urn:x:y", "URN:x:y"}}[core.Hash64(fmt.Sprint("c20-urls", seed))%6]
 	// values of several datatypes, including pairs of the same type where the later value has zero / unset /
 	// shorter fields than the earlier one (an update that merges instead of replacing shows there)
 	mk := func(u string, v string) *dtpb.Extension {
